@@ -4,19 +4,22 @@
 # seeds): (1) it applies and compiles, (2) the repository's suite still passes with it (same baseline
 # comparison as tools/baseline_off.sh, run in the worktree), (3) the demonstration fails with the
 # change and passes without it. Writes seeded/<id>/confirm.log and prints a summary line.
-ID="$1"; SEED=/verif/seeded/$ID; W=/tmp/confirm
+ID="$1"; SEED=/verif/seeded/$ID; W=${CONFIRM_DIR:-/tmp/confirm}
+# a demo that must live in a member crate: seeded/<id>/demo_dir holds "<tests dir> <cargo package>"
+DEMODIR=tests; PKG="--workspace"
+if [ -f $SEED/demo_dir ]; then read DEMODIR P < $SEED/demo_dir; PKG="-p $P"; fi
 export CARGO_NET_OFFLINE=true
 if [ ! -d $W ]; then git -C /repo worktree add --detach $W HEAD >/dev/null 2>&1 || exit 2; fi
 cd $W || exit 2
 git checkout -q --detach $(git -C /repo rev-parse HEAD) 2>/dev/null
-git checkout -- . ; rm -f tests/seed_demo.rs
+git checkout -- . ; rm -f tests/seed_demo.rs format/tests/seed_demo.rs completion/tests/seed_demo.rs
 LOG=$SEED/confirm.log; : > $LOG
 echo "== repo commit $(git rev-parse --short HEAD)" >> $LOG
 git apply $SEED/patch.diff || { echo "$ID: patch does not apply" | tee -a $LOG; exit 1; }
-cp $SEED/demo.rs tests/seed_demo.rs
+cp $SEED/demo.rs $DEMODIR/seed_demo.rs
 echo "== demo WITH the change" >> $LOG
-cargo test --workspace --offline --test seed_demo >> $LOG 2>&1; WITH=$?
-rm -f tests/seed_demo.rs
+cargo test $PKG --offline --test seed_demo >> $LOG 2>&1; WITH=$?
+rm -f $DEMODIR/seed_demo.rs
 echo "== suite WITH the change" >> $LOG
 OUT=$(mktemp); cargo test --workspace --no-fail-fast --offline > $OUT 2>&1
 python3 - $OUT >> $LOG <<'PY'
@@ -47,10 +50,10 @@ for t in $(grep "^  FAILED" $LOG | grep -v "doc::check_links" | awk '{print $2}'
   if cargo test --workspace --offline --test $bin -- --exact $name >> $LOG 2>&1; then echo "RETRY $t passed" >> $LOG; else echo "RETRY $t FAILED" >> $LOG; fi
 done
 git checkout -- .
-cp $SEED/demo.rs tests/seed_demo.rs
+cp $SEED/demo.rs $DEMODIR/seed_demo.rs
 echo "== demo WITHOUT the change" >> $LOG
-cargo test --workspace --offline --test seed_demo >> $LOG 2>&1; WITHOUT=$?
-rm -f tests/seed_demo.rs
+cargo test $PKG --offline --test seed_demo >> $LOG 2>&1; WITHOUT=$?
+rm -f $DEMODIR/seed_demo.rs
 SUITE=$(grep "^SUITE" $LOG)
 RETRY=$(grep "^RETRY" $LOG | tr '\n' ';')
 echo "$ID demo_with_change_rc=$WITH demo_without_change_rc=$WITHOUT $SUITE $RETRY" | tee -a $LOG
